@@ -122,7 +122,8 @@ class Ghost:
         if tie:
             a = z3.simplify(term(h) % self.p)
         else:
-            a = P.fresh("a_" + nm)
+            hh = term(h)
+            a = P.fresh("a_" + nm, define=(lambda val, hh=hh, p=self.p: val(hh) % p))      # default: the honest value
             P.axiom(z3.And(a >= 0, a < self.p))
         v = GVar(idx, kind, term(h), a, nm)
         self.vars.append(v)
@@ -184,7 +185,7 @@ class Ghost:
             raise ZeroDivisionError
         key = t.get_id()
         if key not in self._inv:
-            w = P.fresh("inv")
+            w = P.fresh("inv", define=(lambda val, t=t, p=self.p: pow(val(t) % p, -1, p)))
             P.axiom(z3.And(w > 0, w < self.p))
             P.axiom(fmul(t % self.p, w) == 1)
             self._inv[key] = (w, t)
